@@ -336,6 +336,8 @@ def compare_case(case, variant, obs, model, check_types=True):
             spec = "run succeeded but a call site does not invoke a function generated for exactly its argument types: " + "; ".join(obs["calls_bad"])[:300]
         elif obs.get("other_changed"):
             spec = "the file defining the reserved functions was modified"
+        elif case.get("extra_fixed") and obs.get("extra_changed"):
+            spec = "a hand-written file without derive calls was rewritten: %s" % ", ".join(obs["extra_changed"])
         else:
             seen = {}
             # (result type, parameter types) identifies (plugin, argument types) in the C11 streams only
